@@ -248,3 +248,21 @@ Proof.
     destruct (memb d cl); [|exact Hrec].
     intros H. inversion H. subst a b. cbn [length] in *. lia.
 Qed.
+
+(* strings.Index of one byte: nothing before the first occurrence *)
+Lemma index_from_single_spec : forall c s k i, index_from [c] s k = Some i ->
+  exists a b, s = a ++ c :: b /\ i = (k + length a)%nat /\ ~ In c a.
+Proof.
+  intros c s. induction s as [|d s IH]; intros k i; cbn [index_from prefixb].
+  - discriminate.
+  - destruct (Byte.eqb c d) eqn:E; cbn [andb].
+    + intros H. inversion H. subst. apply beqb_eq in E. subst d. exists [], s. repeat split; [cbn; lia | intros X; destruct X].
+    + intros H. apply IH in H. destruct H as [a [b [Hs [Hi Hn]]]]. exists (d :: a), b. repeat split.
+      * cbn. rewrite Hs. reflexivity.
+      * cbn. lia.
+      * intros [X|X]; [subst; rewrite beqb_refl in E; discriminate | exact (Hn X)].
+Qed.
+
+Lemma index_single_spec : forall c s i, index [c] s = Some i ->
+  exists a b, s = a ++ c :: b /\ i = length a /\ ~ In c a.
+Proof. intros c s i H. apply index_from_single_spec in H. exact H. Qed.
